@@ -317,7 +317,21 @@ class Module:
             l = l.strip()
             if l.startswith(';'):
                 continue
-            f.blocks[cur].append(parse_instr(l))
+            ins = parse_instr(l)
+            if ins.op == 'nop' and f.blocks[cur] and f.blocks[cur][-1].op == 'landingpad' and l.split()[0] in ('catch', 'cleanup', 'filter'):
+                # clause line of the landingpad above: keep the caught typeinfo symbols (None = catch-all) in clause order
+                lp = f.blocks[cur][-1]
+                cl = list(lp.a or [])
+                if l.startswith('catch'):
+                    mm = re.search(r'@(_ZTI[\w$.]+)', l)
+                    cl.append(('catch', mm.group(1) if mm else None))
+                elif l.startswith('filter'):
+                    cl.append(('filter', None))
+                else:
+                    cl.append(('cleanup', None))
+                f.blocks[cur][-1] = Ins(lp.op, lp.dst, cl, lp.text)
+                continue
+            f.blocks[cur].append(ins)
         return f
 
 
